@@ -496,6 +496,30 @@ func (la *lockAnalyzer) analyzeFunc(fd *ast.FuncDecl, name string, entryHeld map
 					}
 					return false
 				}
+			case *ast.CallExpr:
+				// a literal handed to a standard-library routine that calls it before returning (maps.DeleteFunc,
+				// slices.IndexFunc, sort.Slice, …) runs under the locks held at the call
+				if la.callsBackSynchronously(m) {
+					hasLit := false
+					for _, arg := range m.Args {
+						if _, ok := ast.Unparen(arg).(*ast.FuncLit); ok {
+							hasLit = true
+						}
+					}
+					if hasLit {
+						for _, arg := range m.Args {
+							if lit, ok := ast.Unparen(arg).(*ast.FuncLit); ok {
+								n++
+								a := la.analyze(name+"$lit"+itoa(n), lit.Body, false, false, parent.HeldAt[m])
+								out = append(out, a)
+								walk(lit.Body, a)
+							} else {
+								walk(arg, parent)
+							}
+						}
+						return false
+					}
+				}
 			case *ast.FuncLit:
 				n++
 				a := la.analyze(name+"$lit"+itoa(n), m.Body, false, false, nil)
@@ -1344,4 +1368,29 @@ func (la *lockAnalyzer) wrapperLocks(obj *types.Func) map[string]bool {
 		out[k] = true
 	}
 	return out
+}
+
+// callsBackSynchronously: call is of a function of package maps, slices or sort (they invoke their function
+// arguments before returning, on the calling goroutine).
+func (la *lockAnalyzer) callsBackSynchronously(call *ast.CallExpr) bool {
+	fun := ast.Unparen(call.Fun)
+	if ix, ok := fun.(*ast.IndexExpr); ok {
+		fun = ix.X
+	}
+	if ix, ok := fun.(*ast.IndexListExpr); ok {
+		fun = ix.X
+	}
+	sel, ok := fun.(*ast.SelectorExpr)
+	if !ok {
+		return false
+	}
+	fn, _ := la.pkg.TypesInfo.ObjectOf(sel.Sel).(*types.Func)
+	if fn == nil || fn.Pkg() == nil {
+		return false
+	}
+	switch fn.Pkg().Path() {
+	case "maps", "slices", "sort":
+		return true
+	}
+	return false
 }
